@@ -331,6 +331,14 @@ Proof.
   rewrite rd_app_l by (simpl; lia). exact NE.
 Qed.
 
+(* lia with ZifyBool slows down badly when many opaque boolean facts are around *)
+Ltac clear_bools := repeat match goal with
+  | H : wf_blob _ = _ |- _ => clear H | H : wf_group _ = _ |- _ => clear H | H : wf_type _ = _ |- _ => clear H
+  | H : forallb _ _ = _ |- _ => clear H | H : existsb _ _ = _ |- _ => clear H | H : kind_ok _ = _ |- _ => clear H
+  | H : any_changes _ _ _ _ _ = _ |- _ => clear H | H : ty_matches _ _ _ _ = _ |- _ => clear H
+  | H : bytes_ok _ = _ |- _ => clear H end.
+Ltac blia := clear_bools; lia.
+
 Ltac if_false := match goal with |- context [if ?c then _ else _] => replace c with false by lia end.
 Ltac if_true := match goal with |- context [if ?c then _ else _] => replace c with true by lia end.
 Tactic Notation "if_false_by" tactic(t) :=
@@ -1503,53 +1511,62 @@ Proof.
   pose proof (zlen_nonneg ex). pose proof (ty_size_ge t).
   pose proof Wt as Wt'. apply wf_type_spec in Wt' as (Lt1 & Lt2 & _ & _ & _ & TS16).
   assert (GS : groups_size G = groups_size G1 + group_size g + groups_size G2).
-  { unfold G. rewrite groups_size_app, groups_size_cons. lia. }
+  { unfold G. rewrite groups_size_app, groups_size_cons. blia. }
   assert (gS : group_size g = 16 + zlen ex + types_size T1 + ty_size t + types_size T2).
-  { unfold g. cbn [group_size]. rewrite types_size_app, types_size_cons. lia. }
+  { unfold g. cbn [group_size]. rewrite types_size_app, types_size_cons. blia. }
   assert (BS : blob_size s = 128 + groups_size G) by reflexivity.
   set (TA := enc_toks (firstn p (ty_toks t))).
   set (TB := enc_toks (skipn p (ty_toks t))).
   assert (LTA : zlen TA = 8 * Z.of_nat p).
-  { unfold TA. rewrite zlen_enc_toks. unfold zlen. rewrite firstn_length. lia. }
+  { unfold TA. rewrite zlen_enc_toks. unfold zlen. rewrite firstn_length. blia. }
   assert (LTB : zlen TB = 8 * (zlen (ty_toks t) - Z.of_nat p)).
-  { unfold TB. rewrite zlen_enc_toks. unfold zlen. rewrite skipn_length. lia. }
+  { unfold TB. rewrite zlen_enc_toks. unfold zlen. rewrite skipn_length. blia. }
   assert (Eb : enc_blob s = bhdr s ++ enc_groups G1 ++ ghdr g ++ (ex ++ enc_types T1) ++ thdr t ++ TA ++
                              (TB ++ enc_types T2 ++ enc_groups G2) ++ S).
   { rewrite enc_blob_bhdr. cbn [bl_groups bl_slack s]. unfold G.
     rewrite enc_groups_app, enc_groups_cons, enc_group_ghdr. fold g. unfold g at 2. cbn [gtail].
     rewrite enc_types_app, enc_types_cons, enc_type_thdr.
     rewrite (enc_toks_split p (ty_toks t)). fold TA TB. rewrite <- !app_assoc. reflexivity. }
-  rewrite Eb.
-  rewrite insert_case1; auto.
+  rewrite Eb. rewrite Z.add_0_l.
+  rewrite (insert_case1 k pm bm kind nv (blob_size s) (bhdr s) (enc_groups G1) (ghdr g) (ex ++ enc_types T1)
+             (thdr t) TA (TB ++ enc_types T2 ++ enc_groups G2) S (groups_size G1) (types_size T1)
+             (8 * Z.of_nat p) false).
   2:{ apply zlen_bhdr; auto. }
   2:{ apply zlen_ghdr; auto. }
   2:{ apply zlen_thdr; auto. }
-  2:{ rewrite HSZ, zlen_app. lia. }
-  2:{ lia. }
-  2:{ rewrite HSZ. lia. }
-  2:{ lia. }
-  2:{ rewrite !zlen_app. unfold ty_size in *. lia. }
-  2:{ rewrite !zlen_app. unfold ty_size in *. lia. }
-  2:{ rewrite TSZ. pw. lia. }
-  2:{ rewrite GSZe. lia. }
-  2:{ rewrite GSZe. lia. }
+  2:{ blia. }
+  2:{ rewrite HSZ, zlen_app. blia. }
+  2:{ blia. }
+  2:{ rewrite HSZ. blia. }
+  2:{ blia. }
+  2:{ rewrite !zlen_app. unfold ty_size in *. blia. }
+  2:{ blia. }
+  2:{ rewrite TSZ. pw. blia. }
+  2:{ rewrite GSZe. blia. }
+  2:{ rewrite GSZe. blia. }
+  2:{ exact Hk. }
+  2:{ exact Hnv. }
   rewrite TSZ, GSZe.
   (* the specification side *)
-  unfold upsert_blob. cbn [bl_groups bl_h1 bl_h2 bl_slack s]. fold G. rewrite CH.
-  unfold G at 1. rewrite last_group_match_full_split by auto.
+  set (g' := TokGroup sg vr ex (T1 ++ ins_tok k nv t :: T2)).
+  assert (ELF : last_group_match_full kind pm bm G = Some (ty_size t + 8 >? 65535))
+    by (unfold G, g; apply last_group_match_full_split; auto).
+  assert (EIL : ins_last_group kind pm bm k nv G = Some (G1 ++ g' :: G2))
+    by (unfold G, g, g'; apply ins_last_group_split; auto).
+  unfold upsert_blob. cbn [bl_groups bl_h1 bl_h2 bl_slack s]. fold G. rewrite CH, ELF.
   destruct (ty_size t + 8 >? 65535) eqn:Efull.
   { cbn [fst snd]. rewrite Eb. reflexivity. }
-  unfold upsert_spec. rewrite CH. unfold G at 1 2. rewrite ins_last_group_split by auto.
-  set (g' := TokGroup sg vr ex (T1 ++ ins_tok k nv t :: T2)).
+  unfold upsert_spec. rewrite CH, EIL.
   assert (gS' : group_size g' = group_size g + 8).
-  { unfold g'. cbn [group_size]. rewrite types_size_app, types_size_cons, ins_tok_size. lia. }
+  { unfold g'. cbn [group_size]. rewrite types_size_app, types_size_cons, ins_tok_size. blia. }
   assert (GS' : groups_size (G1 ++ g' :: G2) = groups_size G + 8).
-  { rewrite groups_size_app, groups_size_cons. lia. }
-  rewrite GS'. replace (groups_size G + 8 - groups_size G) with 8 by lia.
+  { rewrite groups_size_app, groups_size_cons. blia. }
+  rewrite GS'. replace (groups_size G + 8 - groups_size G) with 8 by blia.
   destruct (8 >? zlen S) eqn:Eroom.
   { cbn [fst snd]. rewrite Eb. reflexivity. }
   cbn [fst snd]. f_equal. f_equal.
-  rewrite bhdr_set_size, thdr_set_size by auto. unfold g at 1. rewrite ghdr_set_size by auto.
+  rewrite bhdr_set_size, thdr_set_size by auto.
+  pose proof (ghdr_set_size sg vr ex (T1 ++ t :: T2) (group_size g + 8) Wg) as EGS. fold g in EGS. rewrite EGS.
   unfold enc_blob. cbn [bl_h1 bl_h2 bl_groups bl_slack s].
   unfold blob_size. cbn [bl_groups]. rewrite GS'.
   rewrite enc_groups_app, enc_groups_cons. unfold g' at 2. cbn [enc_group]. fold g'. rewrite gS'.
@@ -1557,6 +1574,6 @@ Proof.
   unfold ins_tok at 1 2 3. cbn [ty_h1 ty_h2 ty_toks]. fold p.
   rewrite enc_toks_app, enc_toks_cons. fold TA TB.
   rewrite <- !app_assoc.
-  replace (128 + (groups_size G + 8)) with (128 + groups_size G + 8) by lia.
+  replace (128 + (groups_size G + 8)) with (128 + groups_size G + 8) by blia.
   reflexivity.
 Qed.
